@@ -24,9 +24,11 @@ package debian
 // ---- constructors: value xor error (C06); the fact is structural (untagged) because callers rely on it
 
 //@ func (*Ecosystem).NewVersion
+//@   ensures text: result1 == nil ==> result0.original == arg1 || result0.original == strings.TrimSpace(arg1)   [C18]
 //@   ensures xor: (result0 != nil) == (result1 == nil)
 
 //@ func (*Ecosystem).NewVersionRange
+//@   ensures text: result1 == nil ==> result0.original == arg1 || result0.original == strings.TrimSpace(arg1)   [C18]
 //@   ensures xor: (result0 != nil) == (result1 == nil)
 
 // ---- ranges (C02: a comparator holds exactly when Compare says so; C20: membership depends only on order position)
@@ -51,3 +53,11 @@ package debian
 
 //@ lemma c20-equal [C20]: forall c *constraint, v1, v2 *Version :: trigger(satisfiesConstraint(v1, c), satisfiesConstraint(v2, c)) && c != nil && c.version != nil && v1 != nil && v2 != nil && (c.operator == "=" || c.operator == "!=" || c.operator == "<" || c.operator == "<=" || c.operator == ">" || c.operator == ">=" || c.operator == ">>" || c.operator == "<<") && v1.Compare(v2) == 0 ==> satisfiesConstraint(v1, c) == satisfiesConstraint(v2, c)
 //@ lemma c20-convex [C20]: forall c *constraint, a, b, d *Version :: trigger(satisfiesConstraint(a, c), satisfiesConstraint(d, c), a.Compare(b), b.Compare(d)) && c != nil && c.version != nil && a != nil && b != nil && d != nil && (c.operator == "=" || c.operator == "!=" || c.operator == "<" || c.operator == "<=" || c.operator == ">" || c.operator == ">=" || c.operator == ">>" || c.operator == "<<") && c.operator != "!=" && a.Compare(b) <= 0 && b.Compare(d) <= 0 && satisfiesConstraint(a, c) && satisfiesConstraint(d, c) ==> satisfiesConstraint(b, c)
+
+// ---- stored text (C18)
+
+//@ func (*Version).String
+//@   ensures text: result == arg0.original   [C18]
+
+//@ func (*VersionRange).String
+//@   ensures text: result == arg0.original   [C18]
